@@ -221,7 +221,10 @@ R15_FAMS = ['tiny', 'rel', 'adj', 'dec12', 'thr']
 # 1 + o * 2^-40 (differences beyond the 12th decimal)
 R15_OUTS = ['aff:0:-20', 'aff:31:11', 'aff:-38:-58', 'm:adj', 'm:aff:0:-40', 'm:aff:31:-9']
 # R16: containers a caller can refill in place ('list' kinds: any length; arrays: same length)
-R16_KINDS = ['list', 'floatlist', 'int64', 'float64', 'strided', 'int16', 'close:rel:arr']
+# (value-preserving kinds only: a 'close:' kind re-encodes the logical values, and a history that mixed it with the
+# other kinds looked results up with the encoding of a LATER container - a fault of the harness, seed 19; the R15
+# close families have their own scenarios in which every container of the history uses the same family)
+R16_KINDS = ['list', 'floatlist', 'int64', 'float64', 'strided', 'int16', 'float32']
 
 
 def _bits(x):
